@@ -117,7 +117,47 @@ fn render(svg: &str, o: &usvg::Options, w: u32, h: u32) -> Option<tiny_skia::Pix
     pan::catch(|| crate::rend::render(&t, w, h, tiny_skia::Transform::identity())).ok().flatten()
 }
 
+/// one white mask / clip path in objectBoundingBox content units shared by elements with different
+/// boxes: every element lies inside its own white mask, so nothing may change
+fn shared_definitions(tier: &str, seed: u64, s: &mut Search) {
+    let mut rng = Rng::new(seed ^ 0x5EA7C15A);
+    let n = (if tier == "thorough" { 600 } else { 60 }) * budget_mult();
+    let o = crate::corpus::opts_for(None);
+    for i in 0..n {
+        let (w, h) = (120u32, 100u32);
+        let k = 2 + rng.below(3);
+        let mut shapes = String::new();
+        for j in 0..k {
+            let (x, y) = (rng.range(0, 80), rng.range(0, 60));
+            let (sw, sh) = (rng.range(6, 40), rng.range(6, 40));
+            let fill = *rng.pick(&["blue", "green", "#f80", "purple"]);
+            shapes += &match (i + j) % 3 {
+                0 => format!(r#"<rect MASK x="{x}" y="{y}" width="{sw}" height="{sh}" fill="{fill}"/>"#),
+                1 => format!(r#"<g MASK><circle cx="{}" cy="{}" r="{}" fill="{fill}"/></g>"#, x + 20, y + 20, sw / 2 + 2),
+                _ => format!(r#"<path MASK d="M {x} {y} l {sw} 3 l -4 {sh} z" fill="{fill}"/>"#),
+            };
+        }
+        let mu = *rng.pick(&["userSpaceOnUse", "objectBoundingBox"]);
+        let region = if mu == "userSpaceOnUse" { r#"x="-10" y="-10" width="400" height="400""# } else { r#"x="-0.5" y="-0.5" width="2" height="2""# };
+        let (def, attr) = if i % 2 == 0 {
+            (format!(r#"<mask id="zs" maskUnits="{mu}" {region} maskContentUnits="objectBoundingBox"><rect x="-0.2" y="-0.2" width="1.4" height="1.4" fill="white"/></mask>"#), r#"mask="url(#zs)""#)
+        } else {
+            (r#"<clipPath id="zs" clipPathUnits="objectBoundingBox"><rect x="-0.2" y="-0.2" width="1.4" height="1.4"/></clipPath>"#.to_string(), r#"clip-path="url(#zs)""#)
+        };
+        let hdr = format!(r#"<svg xmlns="http://www.w3.org/2000/svg" width="{w}" height="{h}">"#);
+        let plain = format!("{hdr}{}</svg>", shapes.replace("MASK ", "").replace(" MASK", ""));
+        let wrapped = format!("{hdr}<defs>{def}</defs>{}</svg>", shapes.replace("MASK", attr));
+        let (Some(pa), Some(pb)) = (render(&plain, &o, w, h), render(&wrapped, &o, w, h)) else { continue };
+        s.case("shared-bbox-definition", &wrapped, true);
+        let (ok, why) = crate::rend::similar(&pa, &pb, 8);
+        if !ok {
+            s.finding(if i % 2 == 0 { "oracle:mask:shared-bbox-mask-changes-covered-content" } else { "oracle:clip:shared-bbox-clip-changes-covered-content" }, &format!("elements lying inside their own white objectBoundingBox mask / clip changed: {}", why), &wrapped);
+        }
+    }
+}
+
 pub fn search(tier: &str, seed: u64, s: &mut Search) {
+    shared_definitions(tier, seed, s);
     let mut rng = Rng::new(seed ^ 0x5EA7C15);
     let n = (if tier == "thorough" { 3000 } else { 300 }) * budget_mult();
     let o = crate::corpus::opts_for(None);
@@ -163,7 +203,14 @@ pub fn search(tier: &str, seed: u64, s: &mut Search) {
                 // fully white opaque luminance mask restricted to a rectangle
                 {
                     let (mx, my, mw, mh) = (g.rng.range(0, w as i64 / 2), g.rng.range(0, h as i64 / 2), g.rng.range(5, w as i64), g.rng.range(5, h as i64));
-                    format!(r#"{hdr}<defs>{defs0}<mask id="zm" maskUnits="userSpaceOnUse" x="{mx}" y="{my}" width="{mw}" height="{mh}"><rect x="-100" y="-100" width="1000" height="1000" fill="white"/></mask></defs><g mask="url(#zm)"><g{tf}>{content}</g></g></svg>"#)
+                    // the white content: one huge rectangle, or a rectangle whose FILL lies inside the mask
+                    // region while its white stroke covers everything (the region must still bound the result)
+                    let white = if (i / 3) % 2 == 0 {
+                        r#"<rect x="-100" y="-100" width="1000" height="1000" fill="white"/>"#.to_string()
+                    } else {
+                        format!(r#"<rect x="{}" y="{}" width="{}" height="{}" fill="white" stroke="white" stroke-width="600"/>"#, mx + 1, my + 1, (mw - 2).max(1), (mh - 2).max(1))
+                    };
+                    format!(r#"{hdr}<defs>{defs0}<mask id="zm" maskUnits="userSpaceOnUse" x="{mx}" y="{my}" width="{mw}" height="{mh}">{white}</mask></defs><g mask="url(#zm)"><g{tf}>{content}</g></g></svg>"#)
                         + &format!("<!--{} {} {} {}-->", mx, my, mw, mh)
                 },
                 None,
